@@ -19,6 +19,7 @@ PROPS = {
             {"harness": "H_C01_longline", "params": {"len": 1100000}},
             {"harness": "H_C01_twofiles", "quick": {"calls": 3}, "thorough": {"calls": 4}},
             {"harness": "H_C01_bigfile", "quick": {"entries": 40}, "thorough": {"entries": 80}},
+            {"harness": "H_C01_order"},
             {"harness": "H_C01_shadow", "quick": {"n": 2}, "thorough": {"n": 3}},
             {"harness": "H_C01_mixed", "thorough_only": True, "thorough": {"n": 1, "m": 1}, "timeout_s": 900},
         ],
@@ -75,6 +76,8 @@ PROPS = {
             {"harness": "H_C03_isolation", "reach": ["add", "update"], "quick": {"frames": 2, "n": 3}, "thorough": {"frames": 3, "n": 3}},
             {"harness": "H_C03_lookalike"},
             {"harness": "H_C04_layouts"},
+            {"harness": "H_C01_order"},
+            {"harness": "H_C03_mention"},
             {"harness": "H_C01_longline", "params": {"len": 1100000}},
             {"harness": "H_C01_twofiles", "quick": {"calls": 3}, "thorough": {"calls": 4}},
         ],
@@ -105,6 +108,8 @@ PROPS = {
             {"harness": "H_clean", "params": {"prop": 5}, "reach": ["ci"], "quick": {"count": 1, "n": 0}, "thorough": {"count": 2, "n": 1}},
             {"harness": "H_C05_readonly"},
             {"harness": "H_C05_run"},
+            {"harness": "H_C02_json"},
+            {"harness": "H_C09_empty"},
         ],
         "bounds": {"quick": "CI x Update option x UPDATE_SNAPS (any string of <= 5 bytes) x 5 entry points x entry state; LF or CRLF line endings in the file x CI x Update(false) x match/mismatch x 3 keyed entry points; Clean under a -run filter x CI x UPDATE_SNAPS (<= 5 bytes) with an obsolete file nothing exempts",
                    "thorough": "UPDATE_SNAPS any string of <= 6 bytes"},
@@ -144,6 +149,7 @@ PROPS = {
             {"harness": "H_C04_update", "params": {"struct": 1, "frames": 1}, "quick": {"lines": 2}, "thorough": {"lines": 3}},
             {"harness": "H_C10_bodies", "quick": {"lines": 2}, "thorough": {"lines": 3}},
             {"harness": "H_C01_longline", "params": {"len": 1100000}},
+            {"harness": "H_C03_mention"},
         ],
         "bounds": {"quick": "documents: arbitrary bytes <= 4, and five part-concrete shapes (multi-document stream, block scalar with a --- line, comment, "
                             "header-like flow sequence, trailing blank lines) with symbolic leaves; string and []byte input; final newline present/absent",
@@ -189,6 +195,7 @@ PROPS = {
             {"harness": "H_C10_names"},
             {"harness": "H_C07_symlink"},
             {"harness": "H_C09_odd"},
+            {"harness": "H_C01_twofiles", "quick": {"calls": 3}, "thorough": {"calls": 4}},
         ],
         "bounds": {"quick": "program: TestA (2 calls), TestB (1 call), TestS (1 standalone call), -count 1..2; directory with optional stale ordinal, stale test, "
                             "stale standalone file, stale multi-entry file, 3 layouts; CI x UPDATE_SNAPS (<= 5 bytes) x sort; one live body symbolic (<= 1 byte); a 5000-byte live body; nine unusual test names; the snapshot directory reached through a symbolic link",
@@ -203,6 +210,7 @@ PROPS = {
             {"harness": "H_C08_midskip"},
             {"harness": "H_C07_symlink"},
             {"harness": "H_C09_odd"},
+            {"harness": "H_C09_empty"},
         ],
         "bounds": {"quick": "same program and directory shapes as C07; all three Clean modes incl. sort requested on an unsorted file with stale entries",
                    "thorough": "-count 1..3, all bodies symbolic"},
